@@ -165,7 +165,7 @@ def build(case, ck, fname):
     src = f"def {fname}({', '.join(parts)}){retstr}:\n    __calls.append(1)\n    return __ret[0]\n"
     for p in case["params"]:
         ns[f"__D_{p['name']}"] = entry_value(p, ns)
-    exec(compile(src, "<vf-generated>", "exec"), ns)
+    gc.exec_source(src, "<vf-generated>", ns)
     with warnings.catch_warnings():
         warnings.simplefilter("ignore")
         fn = jaxtyped(typechecker=gc.checker(ck))(ns[fname])
